@@ -88,9 +88,11 @@ type result struct {
 var markerRe = regexp.MustCompile(`##C08NET (\d+) `)
 var msgRe = regexp.MustCompile(`##C08MSG (\d+) ([^\n]*)`)
 
-// exchange sends one case and waits for the outcome.
-func (p *proc) exchange(c *Case, guard time.Duration) *result {
-	b, _ := json.Marshal(c)
+// exchange sends one batch and waits for its outcomes.  died/timedOut results
+// of a batch larger than one are not attributable (attributed=false): the
+// caller re-runs those cases one by one.
+func (p *proc) exchange(batch []*Case, guard time.Duration) (rs []*result, attributed bool) {
+	b, _ := json.Marshal(batch)
 	p.stdin.Write(append(b, '\n'))
 	type rd struct {
 		line []byte
@@ -101,43 +103,57 @@ func (p *proc) exchange(c *Case, guard time.Duration) *result {
 		l, e := p.stdout.ReadBytes('\n')
 		ch <- rd{l, e}
 	}()
-	r := &result{c: c}
+	for _, c := range batch {
+		rs = append(rs, &result{c: c})
+	}
 	select {
 	case x := <-ch:
 		if x.err != nil || len(bytes.TrimSpace(x.line)) == 0 {
-			r.died = true
 			p.cmd.Wait()
-			r.stderr = p.stderr.String()
-			r.panicMsg, r.site, r.routine = parsePanic(r.stderr)
+			stderr := p.stderr.String()
+			msg, site, routine := parsePanic(stderr)
+			for _, r := range rs {
+				r.died, r.stderr = true, stderr
+			}
+			if len(batch) > 1 {
+				return rs, false
+			}
+			r := rs[0]
+			r.panicMsg, r.site, r.routine = msg, site, routine
 			// the death belongs to this case only if its marker is the last one printed
-			if m := markerRe.FindAllStringSubmatch(r.stderr, -1); len(m) > 0 {
-				if id, _ := strconv.Atoi(m[len(m)-1][1]); id != c.ID {
+			if m := markerRe.FindAllStringSubmatch(stderr, -1); len(m) > 0 {
+				if id, _ := strconv.Atoi(m[len(m)-1][1]); id != r.c.ID {
 					r.panicMsg = ""
 				}
 			} else {
 				r.panicMsg = ""
 			}
-			if m := msgRe.FindAllStringSubmatch(r.stderr, -1); len(m) > 0 {
-				if id, _ := strconv.Atoi(m[len(m)-1][1]); id == c.ID {
+			if m := msgRe.FindAllStringSubmatch(stderr, -1); len(m) > 0 {
+				if id, _ := strconv.Atoi(m[len(m)-1][1]); id == r.c.ID {
 					r.msgLine = m[len(m)-1][2]
 				}
 			}
-			return r
+			return rs, true
 		}
-		var o Outcome
-		if e := json.Unmarshal(x.line, &o); e != nil {
-			r.died = true
-			r.stderr = "unparsable worker answer: " + string(x.line)
+		var os []*Outcome
+		if e := json.Unmarshal(x.line, &os); e != nil || len(os) != len(batch) {
+			for _, r := range rs {
+				r.died, r.stderr = true, "unparsable worker answer: "+string(x.line)
+			}
 			p.kill()
-			return r
+			return rs, len(batch) == 1
 		}
-		r.o = &o
+		for i, r := range rs {
+			r.o = os[i]
+		}
+		return rs, true
 	case <-time.After(guard):
-		r.timedOut = true
-		r.stderr = p.stderr.String()
+		for _, r := range rs {
+			r.timedOut, r.stderr = true, p.stderr.String()
+		}
 		p.kill()
+		return rs, len(batch) == 1
 	}
-	return r
 }
 
 // parsePanic extracts the panic message, the innermost repository frame and
@@ -230,6 +246,15 @@ func buildCases(es []EnumEntry, quick bool) []*Case {
 	add := func(e EnumEntry, mode string, long bool) {
 		out = append(out, &Case{ID: len(out), Key: e.Key, Family: e.Family, Type: e.Type, Field: e.Field, Class: e.Class, Val: e.Val, Mode: mode, Chan: e.Chan, Long: long})
 	}
+	// queryMaj23Routine (period 2 s) reads Height, Round, ProposalPOLRound and
+	// CatchupCommitRound of the peer state: the cases that set those wait one period
+	targetsMaj23 := func(e EnumEntry) bool {
+		switch e.Field {
+		case "NewRoundStepMessage.Height", "NewRoundStepMessage.Round", "NewRoundStepMessage.LastCommitRound", "ProposalPOLMessage.ProposalPOLRound", "ProposalPOLMessage.Height":
+			return true
+		}
+		return e.Val == "valid" && (e.Type == "NewRoundStepMessage" || e.Type == "ProposalPOLMessage")
+	}
 	for _, e := range es {
 		sp := specOf(e.Type)
 		cons := sp != nil && sp.group == "consensus"
@@ -239,9 +264,9 @@ func buildCases(es []EnumEntry, quick bool) []*Case {
 				if sp == nil || !sp.quick {
 					continue
 				}
-				// live for all six; the stored-height view where the catch-up gossip reads
+				// live for all six; plus the stored-height view, where the catch-up gossip reads
 				// the poisoned fields (block parts header and bits, round numbers)
-				add(e, "live", false)
+				add(e, "live", targetsMaj23(e))
 				if e.Family == "structured" && (e.Type == "CommitStepMessage" || e.Type == "NewRoundStepMessage") {
 					add(e, "behind", false)
 				}
@@ -249,9 +274,7 @@ func buildCases(es []EnumEntry, quick bool) []*Case {
 			}
 			if cons {
 				for _, m := range []string{"live", "ahead", "behind"} {
-					// queryMaj23Routine reads Height, Round, ProposalPOLRound and CatchupCommitRound of the peer state
-					long := m == "live" && (e.Type == "NewRoundStepMessage" || e.Type == "ProposalPOLMessage")
-					add(e, m, long)
+					add(e, m, m == "live" && targetsMaj23(e))
 				}
 			} else {
 				add(e, "live", false)
@@ -302,6 +325,8 @@ func sigKey(m map[string]string) string {
 	return b.String()
 }
 
+const batchSize = 4
+
 func guardFor(c *Case) time.Duration {
 	return 3*caseDeadline + 15*time.Second
 }
@@ -312,7 +337,8 @@ func runSolo(dir string, c *Case) *result {
 	if err != nil {
 		return &result{c: c, died: true, stderr: err.Error()}
 	}
-	r := p.exchange(c, guardFor(c)+30*time.Second)
+	rs, _ := p.exchange([]*Case{c}, guardFor(c)+30*time.Second)
+	r := rs[0]
 	if !r.died && !r.timedOut {
 		p.kill()
 	}
@@ -362,10 +388,34 @@ func Run(run *core.Run) core.Coverage {
 	}
 	deadline := time.Now().Add(time.Duration(budget) * time.Second)
 
+	// work units: structured cases run one per node at a time (process deaths are
+	// frequent there and must be attributable); byte-level cases, where a death is
+	// rare, run four at a time against one node, each with its own attacker, and a
+	// batch whose process dies is re-run case by case
+	var queue [][]*Case
+	var pend []*Case
+	flush := func() {
+		if len(pend) > 0 {
+			queue = append(queue, pend)
+			pend = nil
+		}
+	}
+	ordered := append([]*Case{}, cases...)
+	sort.SliceStable(ordered, func(i, j int) bool { return ordered[i].Long && !ordered[j].Long })
+	for _, c := range ordered {
+		if c.Family == "structured" || c.Family == "first" {
+			queue = append(queue, []*Case{c})
+			continue
+		}
+		pend = append(pend, c)
+		if len(pend) == batchSize {
+			flush()
+		}
+	}
+	flush()
 	var mu sync.Mutex
-	next := 0
 	var results []*result
-	cut := 0
+	cut, batchDeaths := 0, 0
 	nWorkers := 16
 	var wg sync.WaitGroup
 	for w := 0; w < nWorkers; w++ {
@@ -380,18 +430,20 @@ func Run(run *core.Run) core.Coverage {
 			}()
 			for {
 				mu.Lock()
-				if next >= len(cases) {
+				if len(queue) == 0 {
 					mu.Unlock()
 					return
 				}
 				if time.Now().After(deadline) {
-					cut += len(cases) - next
-					next = len(cases)
+					for _, b := range queue {
+						cut += len(b)
+					}
+					queue = nil
 					mu.Unlock()
 					return
 				}
-				c := cases[next]
-				next++
+				batch := queue[0]
+				queue = queue[1:]
 				mu.Unlock()
 				if p == nil {
 					var err error
@@ -400,15 +452,28 @@ func Run(run *core.Run) core.Coverage {
 						core.Fatal("c08net: cannot start a worker: %v", err)
 					}
 				}
-				r := p.exchange(c, guardFor(c))
-				if r.died || r.timedOut {
-					p = nil
-				} else if r.o.Recycle {
+				rs, attributed := p.exchange(batch, guardFor(batch[0]))
+				recycle := false
+				for _, r := range rs {
+					if r.died || r.timedOut {
+						p = nil
+					} else if r.o.Recycle {
+						recycle = true
+					}
+				}
+				if p != nil && recycle {
 					p.kill()
 					p = nil
 				}
 				mu.Lock()
-				results = append(results, r)
+				if attributed {
+					results = append(results, rs...)
+				} else {
+					batchDeaths++
+					for _, c := range batch {
+						queue = append(queue, []*Case{c})
+					}
+				}
 				mu.Unlock()
 			}
 		}(w)
@@ -422,6 +487,7 @@ func Run(run *core.Run) core.Coverage {
 	byType := map[string]int{}
 	classes := core.NewCounter()
 	prsShapes := core.NewCounter()
+	reactions := core.NewCounter()
 	samples := core.NewSampler(8, run.Seed)
 	cands := map[string]*candidate{}
 	var order []string
@@ -465,6 +531,9 @@ func Run(run *core.Run) core.Coverage {
 		}
 		hist[res]++
 		classes.Add(r.c.Type + "|" + r.c.Class + "|" + r.c.Mode + "|" + res)
+		if res != "attacker-still-connected" {
+			reactions.Add(fmt.Sprintf("%s %s=%s (%s, %s): %s", r.c.Type, r.c.Field, r.c.Val, r.c.Family, r.c.Mode, res))
+		}
 		if r.o != nil {
 			if r.o.PRS != "" {
 				prsShapes.Add(r.o.PRS)
@@ -626,15 +695,29 @@ func Run(run *core.Run) core.Coverage {
 		"distinct_peer_state_views": prsShapes.Len(),
 		"cases_where_node_gossiped_votes_or_parts_to_attacker": gossipEvidence,
 		"violation_candidate_classes":                          candList,
+		"cases_with_a_visible_reaction":                        sortedKeys(reactions.Map(), 400),
 		"candidate_classes_confirmed_5_of_5":                   reported,
 		"confirmation_runs":                                    confirmRuns,
 		"inconclusive_after_rerun":                             stillInconclusive,
 		"cases_cut_by_deadline":                                cut,
+		"batches_rerun_case_by_case_after_a_death":             batchDeaths,
 		"exhaustive":                                           cut == 0 && stillInconclusive == 0,
 		"scenario_space_exhaustive_schedule_not_controlled":    true,
 		"sweep_wall_s":                                         float64(int(mainWall*10)) / 10,
 		"samples":                                              samples.List(),
 	}
+}
+
+func sortedKeys(m map[string]int, max int) []string {
+	ks := make([]string, 0, len(m))
+	for k := range m {
+		ks = append(ks, k)
+	}
+	sort.Strings(ks)
+	if len(ks) > max {
+		ks = append(ks[:max], fmt.Sprintf("… (%d more)", len(ks)-max))
+	}
+	return ks
 }
 
 // ---------------------------------------------------------------- replay
